@@ -32,6 +32,7 @@ CMPS = [n for n, _ in lb.CMP]
 # published case needs a class that was not generated)
 ALL6 = frozenset(CMPS)
 TINY = [frozenset(), ALL6]
+FOUR = [frozenset(), frozenset(["eq"]), frozenset(["lt", "eq"]), frozenset(["le", "ne"])]
 FIVE = [frozenset(), frozenset(["lt"]), frozenset(["eq"]), frozenset(["lt", "eq"]), frozenset(["le", "ne"]), ALL6]
 SMALL = [frozenset(), frozenset(["lt"]), frozenset(["eq"]), frozenset(["lt", "eq"]), frozenset(["le", "ne"]),
          frozenset(["gt", "eq", "ne"]), ALL6]
@@ -50,13 +51,13 @@ TIERS = {
     "quick": {
         "ops": [o[0] for o in lb.OPS[:8]], "depth3_ops": [],
         "tlc_bin": "BinopSlot_quick", "tlc_cmp": "BinopSlotCmp_quick", "strict": False,
-        "cmp": [(all64(), [], []), (FIVE, FIVE, [])],
+        "cmp": [(all64(), [], []), (FOUR, FOUR, [])], "complete_ops": ["add"],
         "cmp_modules": 6,
     },
     "thorough": {
         "ops": [o[0] for o in lb.OPS], "depth3_ops": ["add"],
         "tlc_bin": "BinopSlot_deep", "tlc_cmp": "BinopSlotCmp_thorough", "strict": True,
-        "cmp": [(all64(), [], SMALL), (MEDIUM, MEDIUM, TINY)],
+        "cmp": [(all64(), [], SMALL), (MEDIUM, MEDIUM, TINY)], "complete_ops": [o[0] for o in lb.OPS],
         "cmp_modules": 12,
     },
 }
@@ -157,13 +158,22 @@ def run(tier, seed):
     pool = concurrent.futures.ThreadPoolExecutor(max_workers=8)
 
     # ---- builds start right away (the class families do not depend on TLC's output)
-    bin_mods = []          # (modname, op, cs, depth3)
+    bin_mods = []          # (modname, op, cs, depth3); operators outside complete_ops get the reduced class family
+    full = {"cs": range(8), "ss": range(8), "ds": range(8)}
     for op in T["ops"]:
         if op in T["depth3_ops"]:
             for c in range(8):
                 bin_mods.append(("c28_%s_c%d" % (op, c), op, [c], True))
         else:
-            bin_mods.append(("c28_%s" % op, op, list(range(8)), False))
+            bin_mods.append(("c28_%s" % op, op, list(range(8)) if op in T["complete_ops"] else list(lb.REDUCED["cs"]), False))
+
+    def fam(op):
+        return full if op in T["complete_ops"] else lb.REDUCED
+
+    def in_family(case, op):
+        f, d = fam(op), case["defs"]
+        return (("C" not in d or lb.bits(d["C"]) in f["cs"]) and ("S" not in d or lb.bits(d["S"]) in f["ss"])
+                and ("D" not in d or lb.bits(d["D"]) in f["ds"]))
     groups, dnames = cmp_class_universe(T["cmp"])
     nmod = T["cmp_modules"]
     cmp_mod_classes = [set(dnames) for _ in range(nmod)]
@@ -171,15 +181,21 @@ def run(tier, seed):
     for i, cn in enumerate(sorted(groups)):
         cmp_mod_classes[i % nmod] |= groups[cn]
         cmp_mod_of[cn] = i % nmod
-    specs = [core.BuildSpec(name, lb.binop_source(op, True, depth3=d3, cs=cs)) for name, op, cs, d3 in bin_mods]
+    specs = [core.BuildSpec(name, lb.binop_source(op, True, depth3=d3, cs=cs, ss=fam(op)["ss"], ds=fam(op)["ds"])) for name, op, cs, d3 in bin_mods]
     specs += [core.BuildSpec("c28_cmp%d" % i, lb.cmp_source(cl, True)) for i, cl in enumerate(cmp_mod_classes)]
     for name, op, cs, d3 in bin_mods:
         with open(os.path.join(pydir, "p" + name[1:] + ".py"), "w") as f:
-            f.write(lb.binop_source(op, False, depth3=d3, cs=cs))
+            f.write(lb.binop_source(op, False, depth3=d3, cs=cs, ss=fam(op)["ss"], ds=fam(op)["ds"]))
     for i, cl in enumerate(cmp_mod_classes):
         with open(os.path.join(pydir, "p28_cmp%d.py" % i), "w") as f:
             f.write(lb.cmp_source(cl, False))
-    fut_build = pool.submit(core.build_many, specs, None, 8 if tier == "quick" else 12)
+    phase = {}
+
+    def timed_build():
+        r = core.build_many(specs, None, 8 if tier == "quick" else 12)
+        phase["builds_done_at"] = round(time.time() - t0, 1)
+        return r
+    fut_build = pool.submit(timed_build)
 
     # ---- model checking (concurrently)
     def tl(module, cfg, must_fail=None):
@@ -203,6 +219,7 @@ def run(tier, seed):
         r = f.result()
         tl_res.append((what, r))
         cov["tlc"].append(dict(r.summary(), config=what, violation=r.violation))
+    phase["tlc_done_at"] = round(time.time() - t0, 1)
     bin_cases = tl_res[0][1].printed
     cmp_cases = tl_res[1][1].printed
     if not bin_cases or not cmp_cases:
@@ -252,7 +269,7 @@ def run(tier, seed):
         return "c28_%s" % op
     bin_files = {}
     for name, op, cs, d3 in bin_mods:
-        sel = [i for i, c in enumerate(bin_cases) if (d3 or "T" not in c["defs"]) and bin_mod_for(c, op) == name]
+        sel = [i for i, c in enumerate(bin_cases) if (d3 or "T" not in c["defs"]) and bin_mod_for(c, op) == name and in_family(c, op)]
         path = os.path.join(wd, name + ".ndjson")
         core.write_ndjson(path, [bin_cases[i] for i in sel])
         bin_files[name] = (path, sel)
@@ -300,6 +317,7 @@ def run(tier, seed):
         for bd in res["bad"][:3]:
             rep.spec_drift("reference vs plain Python classes (%s)" % name, {"case": cases[sel[bd["i"]]], "python": bd})
 
+    phase["python_oracle_done_at"] = round(time.time() - t0, 1)
     # ---- C: compiled extension types
     builds = {b.name: b for b in fut_build.result()}
     pool.shutdown()
@@ -369,6 +387,8 @@ def run(tier, seed):
         if not st_ok:
             core.die("binding self-test failed: %r" % (r if isinstance(r, dict) else r.err[-500:]))
 
+    phase["replay_done_at"] = round(time.time() - t0, 1)
+    cov["phases_s"] = phase
     states = sum(r.generated for _, r in tl_res)
     cov.update({
         "states": states, "distinct_states": sum(r.distinct for _, r in tl_res), "transitions": states,
